@@ -142,6 +142,8 @@ def generate(program, cname, mode='vc', only_case=None):
         rep.cases.append((case.get('label', ''), str(r)))
         if r == z3.unsat:
             rep.vacuous.append(case.get('label', ''))
+    for o in rep.obligations:
+        o.cname = cname         # the contract (variant) the obligation was generated from; o.func is the real function
     return rep
 
 
@@ -207,6 +209,7 @@ class ObText:
         self.name = ob.name
         self.kind = ob.kind
         self.func = ob.func
+        self.cname = getattr(ob, 'cname', ob.func)
         self.line = ob.line
         self.props = ob.props
         self.note = ob.note
